@@ -5,7 +5,9 @@
 From Coq Require Import ZArith List Bool.
 From PTK Require Import Lib.Sx Lib.Py Model.Document Model.BufferEdit Proofs.BufferEditFacts
   Proofs.BufferEditLines Proofs.BufferEditIndent Model.C02_DocQueries Model.C01_CaseWord
-  Proofs.C01_CaseWordFacts Proofs.C01_LastLine Proofs.C01_Audit.
+  Proofs.C01_CaseWordFacts Proofs.C01_LastLine Proofs.C01_Audit
+  Lib.PyLines Gen.C01_CaseMap Model.C01_CaseMap Model.C01_Views
+  Proofs.C01_Exact Proofs.C01_ViewsFacts Proofs.C01_CaseMapFacts.
 Import ListNotations.
 Open Scope Z_scope.
 
@@ -330,6 +332,159 @@ Theorem C01_views_after_history : forall ops b,
   join [NL] (lines (bdoc b')) = btext b'.
 Proof. exact views_after_history. Qed.
 Print Assumptions C01_views_after_history.
+
+(* ---- Round 6 ---------------------------------------------------------- *)
+(* transpose-chars at EVERY position.  Away from the edges (a character that
+   is not a line ending under the cursor, one before it): the two characters
+   around the cursor are exchanged and the cursor steps over them. *)
+Theorem C01_transpose_chars : forall b x y,
+  Inv b -> 0 < bcur b ->
+  nth_error (btext b) (Z.to_nat (bcur b - 1)) = Some x ->
+  nth_error (btext b) (Z.to_nat (bcur b)) = Some y -> y <> NL ->
+  transpose_chars b =
+  Ok (mkbuf (firstn (Z.to_nat (bcur b - 1)) (btext b) ++ [y; x]
+             ++ skipn (Z.to_nat (bcur b + 1)) (btext b)) (bcur b + 1)) [].
+Proof. exact transpose_interior. Qed.
+Print Assumptions C01_transpose_chars.
+
+(* At the end of the text or of a line: the two characters before the cursor
+   are exchanged and the cursor stays ... *)
+Theorem C01_transpose_chars_eol : forall b x y,
+  Inv b -> 2 <= bcur b ->
+  (bcur b = len (btext b) \/ nth_error (btext b) (Z.to_nat (bcur b)) = Some NL) ->
+  nth_error (btext b) (Z.to_nat (bcur b - 2)) = Some x ->
+  nth_error (btext b) (Z.to_nat (bcur b - 1)) = Some y ->
+  transpose_chars b =
+  Ok (mkbuf (firstn (Z.to_nat (bcur b - 2)) (btext b) ++ [y; x]
+             ++ skipn (Z.to_nat (bcur b)) (btext b)) (bcur b)) [].
+Proof. exact transpose_eol. Qed.
+Print Assumptions C01_transpose_chars_eol.
+
+(* ... and with a single character before the cursor nothing happens. *)
+Theorem C01_transpose_chars_eol_one : forall b,
+  bcur b = 1 ->
+  (bcur b = len (btext b) \/ nth_error (btext b) (Z.to_nat (bcur b)) = Some NL) ->
+  transpose_chars b = Ok b [].
+Proof. exact transpose_eol_one. Qed.
+Print Assumptions C01_transpose_chars_eol_one.
+
+(* join_selected_lines, every selection inside the text: never fails; the
+   text outside the selection is kept; the selection is replaced by its lines
+   (str.splitlines), each without its leading blanks and followed by the
+   separator; the cursor goes to the character before the last joined line
+   (clamped at 0 - the only caller of the max(0, ..) of _set_cursor_position). *)
+Theorem C01_join_selected_lines : forall b orig sep,
+  Inv b -> 0 <= orig <= len (btext b) ->
+  let a := Z.min (bcur b) orig in
+  let e := Z.max (bcur b) orig in
+  let ls := map (fun l => lstrip_by (Z.eqb SP) l ++ sep)
+                (splitlines (firstn (Z.to_nat (e - a)) (skipn (Z.to_nat a) (btext b)))) in
+  join_selected_lines b orig sep =
+  Ok (mkbuf (firstn (Z.to_nat a) (btext b) ++ concat ls ++ skipn (Z.to_nat e) (btext b))
+            (Z.max 0 (a + len (concat (removelast ls)) - 1))) [].
+Proof. exact join_selected_lines_spec. Qed.
+Print Assumptions C01_join_selected_lines.
+
+(* What splitlines keeps of the selection: every character that is not a
+   line boundary, in order; and no line holds a boundary. *)
+Theorem C01_splitlines_chars : forall s,
+  concat (splitlines s) = filter not_linebreak s /\
+  forallb (forallb not_linebreak) (splitlines s) = true.
+Proof. intros; split; [apply splitlines_chars|apply splitlines_lines]. Qed.
+Print Assumptions C01_splitlines_chars.
+
+(* The buffer as the object stores it (Model/C01_Views.v): working lines,
+   working index, cursor, the FastDictCache behind Buffer.document and the
+   per-text line cache of Document.  [WInv]: index and cursor in range, every
+   cache entry is the Document / line list of the key it is filed under, at
+   most size+1 cached Documents.  A fresh Buffer satisfies it; every
+   operation (edits, case commands, go_to_history) keeps it; so does every
+   finite sequence. *)
+Theorem C01_stored_initial : forall ls i c,
+  0 <= i < len ls -> 0 <= c <= len (w_text (mkw ls i c [] [])) -> WInv (mkw ls i c [] []).
+Proof. exact winv_initial. Qed.
+Print Assumptions C01_stored_initial.
+
+Theorem C01_stored_inv : forall w o, WInv w -> WInv (snd (wstep w o)).
+Proof. exact wstep_inv. Qed.
+Print Assumptions C01_stored_inv.
+
+Theorem C01_stored_history_inv : forall ops w, WInv w -> WInv (wsteps w ops).
+Proof. exact wsteps_inv. Qed.
+Print Assumptions C01_stored_history_inv.
+
+(* Refinement: what the stored state shows after an edit is exactly the
+   (text, cursor) the theorems above are about. *)
+Theorem C01_stored_refines : forall w x,
+  WInv w -> w_abs (snd (wstep w (WX x))) = res_buf (xstep (w_abs w) x).
+Proof. exact wstep_refines. Qed.
+Print Assumptions C01_stored_refines.
+
+(* "... and nothing else": an edit writes the current working line only; the
+   other entries, their number and the working index are untouched; moving
+   to another entry edits none. *)
+Theorem C01_stored_frame : forall w x,
+  WInv w ->
+  let w' := snd (wstep w (WX x)) in
+  widx w' = widx w /\ len (wlines w') = len (wlines w) /\
+  forall j, 0 <= j < len (wlines w) -> j <> widx w -> index (wlines w') j = index (wlines w) j.
+Proof. exact wstep_frame. Qed.
+Print Assumptions C01_stored_frame.
+
+Theorem C01_goto_frame : forall w i,
+  wlines (snd (wstep w (WGoto i))) = wlines w /\
+  widx (snd (wstep w (WGoto i))) = if (0 <=? i) && (i <? len (wlines w)) then i else widx w.
+Proof. intros; split; [apply w_goto_frame|apply w_goto_index]. Qed.
+Print Assumptions C01_goto_frame.
+
+(* "The text seen through every view of the buffer is the same", for the
+   views of the real object: the Document handed out by the cache has the
+   text of the current working line and the buffer's cursor, its cached lines
+   joined give that text, before + after the cursor give that text - in every
+   invariant state; looking does not change text, index or cursor. *)
+Theorem C01_views_stored : forall w,
+  WInv w ->
+  let '((d, ls), w') := w_observe w in
+  d = mkdoc (w_text w) (wcur w) /\ ls = split_on NL (w_text w) /\
+  join [NL] ls = w_text w /\
+  text_before_cursor d ++ text_after_cursor d = w_text w /\
+  wlines w' = wlines w /\ widx w' = widx w /\ wcur w' = wcur w /\ WInv w'.
+Proof. exact w_observe_views. Qed.
+Print Assumptions C01_views_stored.
+
+Theorem C01_views_stored_after_history : forall ops w,
+  WInv w ->
+  let w1 := wsteps w ops in
+  let '((d, ls), _) := w_observe w1 in
+  dtext d = w_text w1 /\ dcur d = wcur w1 /\ join [NL] ls = w_text w1 /\
+  text_before_cursor d ++ text_after_cursor d = w_text w1 /\
+  0 <= wcur w1 <= len (w_text w1).
+Proof. exact w_views_after_history. Qed.
+Print Assumptions C01_views_stored_after_history.
+
+(* The case maps the correspondence runs (str.upper / lower / title) come from
+   a table regenerated from the CPython under /repo on every run; finite facts
+   re-proved over it: keys strictly increasing (the early-exit lookup is
+   membership), every image 1..3 code points, the ASCII part is the usual one,
+   the cased / case-ignorable ranges are sorted and disjoint. *)
+Theorem C01_casemap_table : 
+  strictly_increasing (map fst c01_case_table) = true /\
+  (forall c v, case_lookup c = Some v <-> In (c, v) c01_case_table) /\
+  (forall c u l t, In (c, (u, (l, t))) c01_case_table ->
+     1 <= len u <= 3 /\ 1 <= len l <= 3 /\ 1 <= len t <= 3) /\
+  (forall c, 0 <= c < 128 -> ascii_case_ok c = true) /\
+  ranges_ok (-1) c01_cased_ranges = true /\ ranges_ok (-1) c01_case_ignorable_ranges = true.
+Proof.
+  exact (conj case_table_sorted (conj case_lookup_iff (conj case_table_image_lengths
+         (conj ascii_case (conj cased_ranges_sorted case_ignorable_ranges_sorted))))).
+Qed.
+Print Assumptions C01_casemap_table.
+
+Theorem C01_casemap_examples :
+  py_upper [223] = [83; 83] /\ py_lower [913; 931] = [945; 962] /\
+  py_lower [913; 931; 913] = [945; 963; 945].
+Proof. exact (conj upper_sharp_s (conj lower_final_sigma lower_medial_sigma)). Qed.
+Print Assumptions C01_casemap_examples.
 
 (* The invariant for the extended operation set (BufferEdit's operations plus
    the case commands with any repeat count) and every finite sequence. *)
